@@ -736,6 +736,27 @@ pub fn run(ctx: &Ctx) {
                 }
             };
             let _ = std::fs::remove_dir_all(&outer);
+            // real kernel only: the shell's own descriptors (10 and up; scripts use 3-8, except the
+            // descriptor-limit scripts, which fill the table on purpose) are the same set after
+            // the script as before it - whatever failed on the way
+            if i % 4 == 0 && !features.iter().any(|f| *f == "ulimit") {
+                let probe = format!("lsfd @start\n{script}\nlsfd @end\n");
+                if let Ok(o) = run_real(&probe, &dir, false) {
+                    let internal = |tag: &str| -> Option<Vec<i32>> {
+                        o.stdout.lines().find_map(|l| l.strip_prefix(tag)).map(|l| l.split_whitespace().filter_map(|f| f.parse::<i32>().ok()).filter(|f| *f >= 10).collect())
+                    };
+                    if let (Some(a), Some(b)) = (internal("@start:"), internal("@end:")) {
+                        ctx.count("real_runs_with_descriptor_comparison", 1);
+                        if a != b {
+                            ctx.violation(
+                                "real:internal-descriptor-left-open",
+                                format!("script #{i} on the real system: shell-internal descriptors before {a:?}, after {b:?}\n--- script:\n{probe}"),
+                            );
+                        }
+                    }
+                }
+                let _ = std::fs::remove_dir_all(&outer);
+            }
             let (virt, verr) = run_virtual(&script, &dir);
             ctx.eval();
             for f in &features {
